@@ -310,7 +310,8 @@ class NSGCoordinator(GameCoordinator):
         
         # for private networks, we want to keep the distances among them
         private_nets_sorted = sorted(private_nets)
-        valid_valid_network_mapping = False
+        # nothing to place if the scenario has no private network
+        valid_valid_network_mapping = len(private_nets_sorted) == 0
         counter_iter = 0
         while not valid_valid_network_mapping:
             try:
@@ -336,8 +337,12 @@ class NSGCoordinator(GameCoordinator):
                 self.logger.info(f"Dynamic address sampling failed, re-trying. {e}")
                 counter_iter +=1
                 if counter_iter > 10:
-                    self.logger.error("Dynamic address failed more than 10 times - stopping.")
-                    exit(-1)
+                    # no placement keeps all private networks inside the address space:
+                    # keep their current addresses (still one-to-one, private, same distances)
+                    self.logger.error("Dynamic address failed more than 10 times - keeping the current private networks.")
+                    for net in private_nets_sorted:
+                        mapping_nets[net] = net
+                    valid_valid_network_mapping = True
                 # Invalid IP address boundary
         self.logger.info(f"New network mapping:{mapping_nets}")
         
